@@ -119,3 +119,30 @@ pub fn chunks_next_eos_native(gap: bool, ordered: bool) -> u32 {
     assert!(outcome == if gap { 2 } else { 1 });
     outcome
 }
+
+/// Native replay body for the E2 query `e2_streams_received_accounting` (C06): STREAM data is
+/// charged to the connection-level receive budget exactly once per new byte and checked against
+/// the limit WE advertised; data beyond that limit is a FLOW_CONTROL_ERROR.
+pub fn received_accounting_native(over: bool) -> u32 {
+    use super::state::verif::{mk_streams, Scalars};
+    // peer's limit (max_data) deliberately differs from ours (local_max_data)
+    let mut st = mk_streams(&Scalars {
+        server: true, max_remote: [4, 4], sent_max_remote: [4, 4], allocated_remote_count: [4, 4], max_concurrent_remote_count: [4, 4],
+        max_data: 5, receive_window: 100, local_max_data: 100, sent_max_data: 100, data_recvd: 90, stream_receive_window: 1 << 16, ..Default::default()
+    });
+    let id = StreamId::new(crate::Side::Client, Dir::Uni, 0);
+    st.insert(true, id);
+    static DATA: [u8; 32] = [7; 32];
+    let n = if over { 11 } else { 10 };
+    let r = st.received(frame::Stream { id, offset: 0, fin: false, data: Bytes::from_static(&DATA[..n]) }, n);
+    if over {
+        assert!(r.is_err(), "data beyond the advertised connection limit was accepted");
+        return 2;
+    }
+    assert!(r.is_ok(), "data within the advertised connection limit was refused");
+    assert!(super::state::verif::peek_data_recvd(&st) == 100, "connection-level receive count must grow by the new bytes");
+    // a retransmission of the same bytes is not charged again
+    let r = st.received(frame::Stream { id, offset: 0, fin: false, data: Bytes::from_static(&DATA[..n]) }, n);
+    assert!(r.is_ok() && super::state::verif::peek_data_recvd(&st) == 100, "duplicate data charged twice");
+    1
+}
